@@ -132,14 +132,32 @@ fn one_tree(t: &Rose, rng: &mut Rng, reqs: &mut Vec<String>, pend: &mut Vec<Pend
                     other => rep.oracle("layout", "refused-after-rescale", &format!("{case}\nar.rescale by 2^{e}\nlay"), &format!("{:?}", other.map(|x| x.map(|_| ())))),
                 }
             }
-            // rescale multiplies every coordinate
-            let before: Vec<(f64, f64, f64, f64)> = l.branches.iter().map(|b| (b.xstart, b.ystart, b.xend, b.yend)).collect();
-            let pts: Vec<(f64, f64)> = l.nodes.iter().map(|n| (n.x, n.y)).collect();
-            l.rescale(2.5);
-            let ok = l.branches.iter().zip(before.iter()).all(|(b, o)| b.xstart == o.0 * 2.5 && b.ystart == o.1 * 2.5 && b.xend == o.2 * 2.5 && b.yend == o.3 * 2.5)
-                && l.nodes.iter().zip(pts.iter()).all(|(n, o)| n.x == o.0 * 2.5 && n.y == o.1 * 2.5);
-            if !ok {
-                rep.oracle("rescale", "not-every-coordinate-multiplied", &case, "");
+            // rescale multiplies every coordinate — by ANY factor: ordinary, negative, zero of either sign, subnormal, huge,
+            // infinite (0 x inf is NaN: NaN results are compared as NaN), successive factors applied to the same drawing
+            let same_f = |a: f64, b: f64| a == b || (a.is_nan() && b.is_nan());
+            for (k, factors) in [vec![2.5, -1.0, 0.1], vec![1e300, 1e-300], vec![1e-310], vec![5e-324], vec![f64::INFINITY], vec![-0.0], vec![0.0, f64::INFINITY]].iter().enumerate() {
+                // every group starts from a fresh drawing (a zero, subnormal or infinite factor destroys it); the destructive
+                // groups run on every third tree
+                if k >= 1 {
+                    if v.len() % 3 != 0 {
+                        continue;
+                    }
+                    match radial_layout(&tree) {
+                        Ok(fresh) => l = fresh,
+                        Err(_) => continue,
+                    }
+                }
+                for &f in factors.iter() {
+                    let before: Vec<(f64, f64, f64, f64)> = l.branches.iter().map(|b| (b.xstart, b.ystart, b.xend, b.yend)).collect();
+                    let pts: Vec<(f64, f64)> = l.nodes.iter().map(|n| (n.x, n.y)).collect();
+                    l.rescale(f);
+                    rep.count("layout_rescalings");
+                    let ok = l.branches.iter().zip(before.iter()).all(|(b, o)| same_f(b.xstart, o.0 * f) && same_f(b.ystart, o.1 * f) && same_f(b.xend, o.2 * f) && same_f(b.yend, o.3 * f))
+                        && l.nodes.iter().zip(pts.iter()).all(|(n, o)| same_f(n.x, o.0 * f) && same_f(n.y, o.1 * f));
+                    if !ok {
+                        rep.oracle("rescale", "not-every-coordinate-multiplied", &format!("{case}\nlay.rescale by {f:e}"), "");
+                    }
+                }
             }
             Ok(v)
         }
